@@ -1273,7 +1273,7 @@ namespace xsimd
                 {
                     batch_type p = floor(q);
                     batch_type z = q - p;
-                    auto test2 = z < batch_type(0.5);
+                    auto test2 = z > batch_type(0.5); // fold the upper half down: z - 1 is exact there, and a small z keeps its digits
                     z = select(test2, z - batch_type(1.), z);
                     z = q * sin(z, trigo_pi_tag());
                     return -log(constants::invpi<batch_type>() * abs(z)) - w;
@@ -1403,7 +1403,7 @@ namespace xsimd
                     batch_type w = lgamma(q);
                     batch_type p = floor(q);
                     batch_type z = q - p;
-                    auto test2 = (z < batch_type(0.5));
+                    auto test2 = (z > batch_type(0.5)); // fold the upper half down: z - 1 is exact there, and a small z keeps its digits
                     z = select(test2, z - batch_type(1.), z);
                     z = q * sin(z, trigo_pi_tag());
                     z = abs(z);
@@ -2465,7 +2465,7 @@ namespace xsimd
                 B p = floor(a);
                 B sgngam = select(is_even(p), -B(1.), B(1.));
                 B z = a - p;
-                auto test2 = z < B(0.5);
+                auto test2 = z > B(0.5); // fold the upper half down: z - 1 is exact there, and a small z keeps its digits
                 z = select(test2, z - B(1.), z);
                 z = a * sin(z, trigo_pi_tag());
                 z = abs(z);
